@@ -9,6 +9,7 @@ CONSTANTS
   Tos = {"victimBare", "victimFull", "domain", "absent"}
   Stanzas <- FromStanzas
   MaxPending = 1
+  MaxRetry = 0
   MaxHist = 99
 VIEW GenView
 ACTION_CONSTRAINT EmitNoReauth
